@@ -66,6 +66,8 @@ type fileDesc struct {
 	Runs [][4]int        `json:"runs,omitempty"` // [n, size, explicit, codec]
 	Tree json.RawMessage `json:"tree,omitempty"`
 	Page int             `json:"page,omitempty"`
+	// EncodedPath: take the file's bytes from there instead of building them again.
+	EncodedPath string `json:"encoded_path,omitempty"`
 }
 
 type job struct {
@@ -115,8 +117,8 @@ type builtFile struct {
 	data    []byte
 	encoded []byte
 	chunks  [][2]int64
-	codecs  []int  // per chunk, as rac.ChunkReader reports it: 0 Zeroes (Short or Long), 1 Zlib, 2 LZ4, 3 Zstandard, -1 other
-	crErr   string // rac.ChunkReader's error while listing the chunks ("" = listed to io.EOF)
+	codecs  []int      // per chunk, as rac.ChunkReader reports it: 0 Zeroes (Short or Long), 1 Zlib, 2 LZ4, 3 Zstandard, -1 other
+	crErr   string     // rac.ChunkReader's error while listing the chunks ("" = listed to io.EOF)
 	cranges [][6]int64 // per chunk (first 2000): CPrimary, CSecondary, CTertiary as rac.ChunkReader reports them
 }
 
@@ -164,6 +166,20 @@ func mix(a, b, c, d uint64) uint64 {
 func buildFile(d fileDesc) (*builtFile, error) {
 	var bf *builtFile
 	var err error
+	if d.EncodedPath != "" {
+		// the bytes an earlier run of this program built from the same description (dump_dir)
+		enc, err := os.ReadFile(d.EncodedPath)
+		if err != nil {
+			return nil, err
+		}
+		bf = &builtFile{desc: d, encoded: enc}
+		if d.Kind == "" {
+			bf.data = writerData(d)
+		} else {
+			bf.data = runsData(d)
+		}
+		return listChunks(bf), nil
+	}
 	switch d.Kind {
 	case "built":
 		bf, err = buildFromDescription(d)
@@ -177,8 +193,14 @@ func buildFile(d fileDesc) (*builtFile, error) {
 	if err != nil {
 		return nil, err
 	}
-	// What rac.ChunkReader makes of it.  An error here is recorded, not fatal:
-	// whether the file is valid is decided independently (walker + TLC).
+	return listChunks(bf), nil
+}
+
+// listChunks records what rac.ChunkReader makes of the file.  An error here is
+// recorded, not fatal: whether the file is valid is decided independently
+// (walker + TLC).
+func listChunks(bf *builtFile) *builtFile {
+	d := bf.desc
 	cr := &rac.ChunkReader{ReadSeeker: bytes.NewReader(bf.encoded), CompressedSize: int64(len(bf.encoded))}
 	bf.chunks, bf.codecs, bf.cranges = [][2]int64{}, []int{}, [][6]int64{}
 	func() {
@@ -226,10 +248,11 @@ func buildFile(d fileDesc) (*builtFile, error) {
 			bf.codecs = append(bf.codecs, k)
 		}
 	}()
-	return bf, nil
+	return bf
 }
 
-func buildWithWriter(d fileDesc) (*builtFile, error) {
+// writerData is the decompressed data of a rac.Writer file description.
+func writerData(d fileDesc) []byte {
 	data := make([]byte, d.Size)
 	for i := range data {
 		data[i] = byte(1 + mix(d.Seed, uint64(i), 7, 3)%255)
@@ -255,6 +278,11 @@ func buildWithWriter(d fileDesc) (*builtFile, error) {
 			}
 		}
 	}
+	return data
+}
+
+func buildWithWriter(d fileDesc) (*builtFile, error) {
+	data := writerData(d)
 	buf := &bytes.Buffer{}
 	w := &rac.Writer{
 		Writer:      buf,
